@@ -737,10 +737,23 @@ let run_fp toks =
     Stdlib.String.concat " | " (Stdlib.List.rev !outs)
   | _ -> failwith "bad failpath case"
 
+(* gate <start> <sector>,<refcount>,<succ or -1>,<safe> ...  (Model.Gate) -> <answer> <memo bits> *)
+let run_gate toks =
+  match toks with
+  | start :: nodes ->
+    let l = Stdlib.List.map (fun t -> match Stdlib.String.split_on_char ',' t with
+        | [s; r; c; f] ->
+          { Gate.gn_sector = n_of_string s; Gate.gn_ref = n_of_string r;
+            Gate.gn_succ = (if c = "-1" then None else Some (Nat_conv.nat_of_int (int_of_string c))); Gate.gn_safe = (f = "1") }
+        | _ -> failwith ("bad gate node " ^ t)) nodes in
+    let (a, l') = Gate.gate l (Nat_conv.nat_of_int (int_of_string start)) in
+    (if a then "1 " else "0 ") ^ Stdlib.String.concat "" (Stdlib.List.map (fun n -> if n.Gate.gn_safe then "1" else "0") l')
+  | _ -> failwith "bad gate case"
+
 let run_note _ = "note"
 
 let handlers : (string * (string list -> string)) list ref =
-  ref [ ("fs", run_fs); ("open", run_open); ("note", run_note); ("codec", run_codec); ("readdev", run_readdev); ("lww", run_lww); ("monitor", run_monitor); ("cache", run_cache); ("migrate", run_migrate); ("conc", run_conc); ("hist", run_hist); ("pins", run_pins); ("inflight", run_inflight); ("swp", run_swp); ("scn", run_scn); ("abuf", run_abuf); ("fp", run_fp) ]
+  ref [ ("fs", run_fs); ("open", run_open); ("note", run_note); ("codec", run_codec); ("readdev", run_readdev); ("lww", run_lww); ("monitor", run_monitor); ("cache", run_cache); ("migrate", run_migrate); ("conc", run_conc); ("hist", run_hist); ("pins", run_pins); ("inflight", run_inflight); ("swp", run_swp); ("scn", run_scn); ("abuf", run_abuf); ("fp", run_fp); ("gate", run_gate) ]
 
 
 let () =
